@@ -121,6 +121,12 @@ def run(P, ctx, a):
     assumptions = fw.print_assumptions(ctx.work, P.props_file[:-2].replace("/", "."), prop_thms) if ok_props else {}
     open_axioms = {t: s for t, s in assumptions.items()
                    if "Closed under the global context" not in s and not P.axioms_allowed(t, s)}
+    chk = None
+    if tier == "thorough" and ok_props and not a.replay:
+        try:
+            chk = fw.coqchk(P.props_file[:-2].replace("/", "."))
+        except Exception as e:                      # timeout etc.: reported, not fatal
+            chk = {"ok": None, "axioms": "?", "summary": "coqchk did not finish: " + repr(e)[:200]}
     proof_broken = None
     if bad:
         proof_broken = "forbidden construct in the development: " + "; ".join(bad[:5])
@@ -128,6 +134,10 @@ def run(P, ctx, a):
         proof_broken = "proof closure of %s does not build: %s" % (P.props_file, tail_err(log_props))
     elif open_axioms:
         proof_broken = "theorems with unexpected assumptions: " + json.dumps(open_axioms)[:600]
+    elif chk is not None and chk["ok"] is False:
+        proof_broken = "coqchk rejects the compiled development: " + chk["summary"][:600]
+    elif chk is not None and chk["ok"] and chk["axioms"] not in ("<none>",) and not P.axioms_allowed("coqchk", chk["axioms"]):
+        proof_broken = "coqchk reports axioms in the closure: " + chk["axioms"][:600]
 
     if a.replay:
         return replay(P, ctx, a.replay)
@@ -232,7 +242,7 @@ def run(P, ctx, a):
         "Print Assumptions per property theorem: " + json.dumps(assumptions, sort_keys=True),
         "hand-written Gallina model tied to /repo by behavioural correspondence (sampling) on this run's cases",
         "harness: Python->Gallina literal printer, observation code in harness/props/%s.py" % pid.lower(),
-    ] + list(P.trusted)
+    ] + (["coqchk -o on the property's closure: " + json.dumps(chk)] if chk is not None else []) + list(P.trusted)
     ev = {
         "property_id": pid, "tier": tier, "seed": ctx.seed, "level": "proof",
         "coverage": {
